@@ -207,11 +207,19 @@ def bounded(tier, seed):
     hdrs += [("text/plain; Charset=latin-1", "text/plain", "latin-1"), ("text/plain; CHARSET=ascii", "text/plain", "ascii"),
              ("text/csv; Charset=latin-1", "text/csv", "latin-1"), ("text/plain; format=flowed; charset=latin-1", "text/plain", "latin-1"),
              ("application/x-www-form-urlencoded; Charset=ascii", "application/x-www-form-urlencoded", "ascii"),
-             ("application/xhtml+xml; charset=latin-1", "text/html", "latin-1")]
+             ("application/xhtml+xml; charset=latin-1", "text/html", "latin-1"),
+             # XHTML served as XML, no charset parameter: the HTML rule applies (an XML declaration in the text is not a
+             # charset declaration for the reader: utf8 unless a <meta> says otherwise)
+             ("application/xhtml+xml", "xhtml", None), ("application/xhtml+xml; version=1", "xhtml", None)]
     if True:
         for h, ct, cs in hdrs:
-            bodies = [(s, False) for s in strs] + [(d + t, True) for d in DECLS.get(ct, []) for t in ["", "a", "é", "日", "😀", "ÿþ"]]
-            for s, declared in bodies:
+            tails = ["", "a", "é", "日", "😀", "ÿþ"]
+            # (text, has in-body declaration, declaration is one the reader honours for this type = KF-C32-5 class)
+            bodies = [(s, False, False) for s in strs] + [(d + t, True, True) for d in DECLS.get(ct, []) for t in tails]
+            if ct == "xhtml":
+                bodies += [(d + t, True, True) for d in DECLS["text/html"] for t in tails]
+                bodies += [(d + "<html>" + t, True, False) for d in DECLS["application/xml"] for t in tails]
+            for s, declared, honoured in bodies:
                 m = tutils.tresp()
                 m.headers.pop("content-type", None)
                 if h:
@@ -245,10 +253,10 @@ def bounded(tier, seed):
                     name = "text.leading_bom_character_lost[KF-C32-1]"
                 elif err is None and g == "﻿" + s and (cs or "").lower() in ("utf-16", "utf-32"):
                     name = "text.bom_codec_reads_back_extra_bom[KF-C32-2]"
-                elif declared and ct in DECLS and cs is None:
+                elif declared and honoured and cs is None:
                     name = "text.in_body_declaration_overrides_codec_used_for_writing[KF-C32-5]"
                 elif declared:
-                    name = "text.header_charset_wins_over_in_body_declaration"
+                    name = "text.header_charset_wins_over_in_body_declaration" if cs is not None else "text.in_body_text_is_no_declaration_for_this_type"
                 elif raw is not None and raw.startswith(BOMS) and not s.startswith("﻿"):
                     name = "text.body_bytes_look_like_a_bom[KF-C32-4]"
                 else:
@@ -271,3 +279,64 @@ def bounded(tier, seed):
             except Exception as e:
                 b.fail("infer.total", {"content_type": ascii(ct), "body": body.hex()}, repr(e))
     return b
+
+
+# ---------------------------------------------------------------------------------------------
+# T1: which in-body rule infer_content_encoding applies (content types naming both "html" and "xml" are HTML first)
+
+INFER = "mitmproxy.net.http.headers:infer_content_encoding"
+XML_DECL = b'<?xml version="1.0" encoding="latin-1"?>'
+META = b'<meta charset="koi8-r">'
+INFER_TABLE = [
+    # (content type, body, codec the reader must choose)
+    ("application/xhtml+xml", XML_DECL + b"<html/>", "utf8"),            # XHTML: the HTML rule decides (no <meta> => utf8)
+    ("application/xhtml+xml", XML_DECL + b"<html>" + META, "koi8-r"),
+    ("application/xhtml+xml", b"<html/>", "utf8"),
+    ("text/html", XML_DECL + b"<html/>", "utf8"),
+    ("text/html", META, "koi8-r"),
+    ("application/xml", XML_DECL + b"<a/>", "latin-1"),
+    ("application/xml", b"<a>" + META + b"</a>", "utf8"),
+    ("application/xhtml+xml; charset=ascii", XML_DECL + META, "ascii"),   # a declared charset wins over both
+    ("text/css", b'@charset "latin-1";a{}', "latin-1"),
+    ("application/json", XML_DECL, "utf8"),
+]
+
+
+class ConcreteMatch:
+    """re.Match of a search on concrete arguments (evaluated by the real `re`)"""
+
+    def group(self, i=0):
+        return self.groups[i]
+
+
+def install_concrete_re(vc):
+    """proof mode: re.search / re.match on all-concrete arguments are evaluated by the real library (exact)"""
+    if vc.mode != "sym":
+        return
+    import re
+
+    def mk(fn):
+        def model(v, pattern, string, flags=0):
+            p, s_, f = pattern.concrete(), string.concrete(), (flags.concrete() if hasattr(flags, "concrete") else int(flags))
+            if p is None or s_ is None or f is None:
+                raise Unsupported("re on symbolic arguments in this scenario")
+            m = fn(p, s_, f)
+            if m is None:
+                return NONE
+            return v.new("props.C32:ConcreteMatch", groups=tuple([m.group(0)] + list(m.groups())))
+        return model
+
+    vc.summary("re:search", mk(re.search))
+    vc.summary("re:match", mk(re.match))
+
+
+@scenario("infer_content_encoding.in_body_rule", functions=[INFER, "mitmproxy.net.http.headers:parse_content_type"])
+def s_infer(vc):
+    i = vc.case("row", list(range(len(INFER_TABLE))))
+    ct, body, want = INFER_TABLE[i]
+    install_concrete_re(vc)
+    out = vc.call(INFER, ct, body)
+    vc.ensure("no_exception", out.ok)
+    if out.ok:
+        r = out.result.concrete() if hasattr(out.result, "concrete") else out.result
+        vc.ensure("codec_chosen_by_the_rule_for_this_type", r == want)
